@@ -475,6 +475,48 @@ example : PlainVar fx ["zc"] "temp" ∧ qual ["t"] "k" fx.vars[2] = true := by
   subst this
   decide
 
+/-- the static-floor hypothesis holds for `temp` in `fx`: its group is {`temp`, `salt`}, both have
+the staircase floor, at every time -/
+theorem fxStatic : ∀ e ∈ fx.vars, qual ["t"] "k" e = true →
+    sameSet (spatialOf ["t"] "k" e) (spatialOf ["t"] "k" fx.vars[2]) = true →
+    ∀ env : Env, (∀ x ∈ (fx.vars[2]).dims, x ≠ "k" → env x < fx.sz x) → ∀ j, j < fx.sz "k" →
+      (e.at fx.sz (upd (zeroNs ["t"] env) "k" j)).isSome
+        = ((fx.vars[2]).at fx.sz (upd env "k" j)).isSome := by
+  intro e he hq _ env hb j hj
+  have hx : env "x" < 2 := hb "x" (by decide) (by decide)
+  have ht : env "t" < 2 := hb "t" (by decide) (by decide)
+  have hj' : j < 3 := hj
+  simp only [fx, List.mem_cons, List.not_mem_nil, or_false] at he
+  have hxs : env "x" = 0 ∨ env "x" = 1 := by omega
+  have hts : env "t" = 0 ∨ env "t" = 1 := by omega
+  have hjs : j = 0 ∨ j = 1 ∨ j = 2 := by omega
+  rcases he with rfl | rfl | rfl | rfl | rfl
+  · simp [qual] at hq
+  · simp [qual] at hq
+  · rcases hxs with h1 | h1 <;> rcases hts with h2 | h2 <;> rcases hjs with rfl | rfl | rfl <;>
+      simp [Var.at, upd, zeroNs, h1, h2, fx, Dataset.sz, ravel, size, List.lookup]
+  · rcases hxs with h1 | h1 <;> rcases hts with h2 | h2 <;> rcases hjs with rfl | rfl | rfl <;>
+      simp [Var.at, upd, zeroNs, h1, h2, fx, Dataset.sz, ravel, size, List.lookup]
+  · simp [qual, spatialOf] at hq
+
+/-- every hypothesis of `floor_spec` is met by `temp` in `fx` (both for the code as written and
+for the repaired call) -/
+example (kb : Bool) : ∃ out u', oceanFloorOrd kb fx ["zc"] ["time"] ["k"] = some out ∧ out.find "temp" = some u'
+    ∧ ∀ x, x ∈ u'.dims ↔ x ∈ ["t", "x", "k"] ∧ x ≠ "k" := by
+  have hg : GoodCoord fx "zc" fx.vars[0] "k" :=
+    ⟨by decide, rfl, by decide, by decide, Or.inr (by decide), Or.inr (Or.inl rfl), by decide, by decide⟩
+  have hplain : PlainVar fx ["zc"] "temp" := by
+    refine ⟨by decide, ?_⟩
+    intro c hc cv hf
+    simp only [List.mem_singleton] at hc
+    subst hc
+    have : cv = fx.vars[0] := Option.some.inj (hf.symm.trans (by decide))
+    subst this
+    decide
+  obtain ⟨out, u', h1, h2, h3, _⟩ := floor_spec kb fx ["zc"] ["time"] ["k"] ["k"] ["t"] (fxSetting kb) "zc"
+    (by simp) fx.vars[0] "k" hg (by decide) (by decide) "temp" fx.vars[2] (by decide) hplain (by decide) fxStatic
+  exact ⟨out, u', h1, h2, h3⟩
+
 /-- **The bounds-variable witness** (finding `ocean-floor-bounds-variable`): a depth coordinate
 with a bounds variable stored *after* a data variable of the same depth dimension.  The code
 as written (`kb = true`) raises; with `keep_bounds=False` (`kb = false`) the floor is
